@@ -374,3 +374,33 @@ def rule_affine_first(prop, repo):
         ok = rv[0] == "call" and rv[1].name == "map" and strip(rv[2][0])[0] == "call" and strip(rv[2][0])[1].d == "crate::groups::G::<P>::to_affine" and strip(strip(rv[2][0])[2][0]) == ("field", ("param", 1), 0)
         R.check(ok, "%s:affine-first:%s" % (prop, w), "%s is not self.0.to_affine().map(wrap): %s" % (w, show(rv, maxdepth=3)[:160]), b.file_line(), w, sample={"fn": w})
     return R.finish()
+
+
+def rule_conv_traits(prop, repo):
+    """From<T> for [u8; N] forwards to to_slice; TryFrom<&[u8]> forwards to from_slice (no second, divergent layout)."""
+    F = repo.F
+    R = Rule("R-CONV-TRAITS", "byte-conversion trait impls (From<T> for [u8; N], TryFrom<&[u8]>) forward to to_slice / from_slice of the same type", floor=6)
+    n = 0
+    for imp in F.impls:
+        tr = imp.get("trait")
+        tf = imp.get("trait_full", "")
+        if tr == "core::convert::From" and imp["self_ty"].startswith("[u8; ") and "crate::" in tf:
+            for item in imp["items"]:
+                b = F.bodies.get(item)
+                if b is None or not item.endswith("::from"):
+                    continue
+                R.instance()
+                rv = repo.tb(b).return_value()
+                ok = rv[0] == "call" and rv[1].name == "to_slice" and len(rv[2]) == 1 and strip(rv[2][0]) in (("param", 1), ("init", ("deref", 1)))
+                R.check(ok, "%s:conv:%s" % (prop, item), "%s is not value.to_slice(): %s" % (item, show(rv, maxdepth=3)[:140]), b.file_line(), item, sample={"impl": item, "is": "value.to_slice()"} if R.instances % 4 == 1 else None)
+        if tr == "core::convert::TryFrom" and "&[u8]" in tf and imp.get("self_adt", "") and imp["self_adt"].startswith("crate::"):
+            for item in imp["items"]:
+                b = F.bodies.get(item)
+                if b is None or not item.endswith("::try_from"):
+                    continue
+                R.instance()
+                rv = repo.tb(b).return_value()
+                inner = strip(rv[2][0]) if rv[0] == "call" and rv[1].name in ("ok_or", "ok_or_else") and rv[2] else None
+                ok = inner is not None and inner[0] == "call" and inner[1].name == "from_slice" and inner[1].d.startswith(imp["self_adt"]) and strip(inner[2][0]) in (("param", 1), ("init", ("deref", 1)))
+                R.check(ok, "%s:conv:%s" % (prop, item), "%s is not Self::from_slice(hex).ok_or(..): %s" % (item, show(rv, maxdepth=3)[:140]), b.file_line(), item, sample={"impl": item, "is": "Self::from_slice(hex).ok_or(err)"})
+    return R.finish()
